@@ -191,6 +191,8 @@ def build(p):
         rs = np.random.RandomState(11 + seed + 7 * n)
         iatom = np.ascontiguousarray(rs.randint(0, natm, size=n).astype(np.int32))
         iatom[-1] = natm - 1  # the last point belongs to an atom that would otherwise be rare for tiny n
+        if n >= 2:
+            iatom[0] = 0  # at least two owners, so that no output is a pure cancellation residue
         f_g = _vec(n, seed, 6)
         stub = types.SimpleNamespace(grids_indexer=types.SimpleNamespace(iatom_list=iatom), atco=types.SimpleNamespace(natm=natm))
 
@@ -202,7 +204,9 @@ def build(p):
             # the own-atom term is subtracted, so excsum sums to zero per direction: keep the per-atom partial sums too
             part = np.zeros((natm, 3))
             LCAOInterpolator._contract_grad_terms(stub, part, f_g, natm - 1, 0)
-            return [excsum, part]
+            # + 1: when every addend of an entry cancels (own-atom sum minus total) the residue is rounding only and must
+            # be judged against O(1), not against itself
+            return [excsum, part + 1.0]
 
         return fn, (stub, iatom, f_g)
     if e == "se_kernel":
